@@ -234,6 +234,33 @@ package nfsv4
 //@   ensures a-lock-owner-without-file-states-is-forgotten: len(los.files) == 0 ==> ownerforgotten(nil) == 1
 //@   ensures exactly-this-file-state-leaves-the-owner: len(los.files) == old(len(lofs.lockOwner.files)) - 1 && lofs.lockOwnerIndex == -1
 
+// A new NFSv4.1 session is linked at the head of its client's session list with
+// both neighbours pointing back at it, so that destroying any one session
+// unlinks exactly that session and every session is found when the client's
+// lease runs out (C18: no session record is retained for ever).
+//@ func (*nfs41Program).opCreateSession
+//@   props C18
+//@   at call min#1 assert the-new-session-is-the-head-of-the-clients-session-list: cis.sessions.next == session//@   at call min#1 assert the-old-head-points-back-at-the-new-session: session.next.previous == session
+//@   at call min#1 assert the-new-session-belongs-to-the-client: session.clientIncarnation == cis
+
+// An NFSv4.0 open-owner is only garbage collected (closing whatever it still has
+// open) when it is unused: a confirmed open-owner that still has more than one
+// file registered, i.e. at least one that is not merely waiting for its CLOSE to
+// be finalised, is in use however long it stays silent (C18, C20).
+//@ func (*nfs40OpenOwnerState).isUnused
+//@   props C18 C20
+//@   pure
+//@   ensures a-confirmed-open-owner-with-open-files-is-in-use: r0 && oos.confirmed ==> len(oos.filesByHandle) <= 1
+//@   ensures an-open-owner-without-files-or-confirmation-is-unused: len(oos.filesByHandle) == 0 || !oos.confirmed ==> r0
+//@   ensures one-remaining-file-counts-only-if-it-is-not-half-closed:
+//@             oos.confirmed && len(oos.filesByHandle) == 1 ==> r0 == (oos.lastResponse != nil && oos.lastResponse.closedFile != nil)
+
+// A successful NFSv4.0 CLOSE half-closes the file and advances its state ID, so
+// that a retransmission of the CLOSE (which names the old state ID) is recognised
+// as the request the cached reply belongs to (C19).
+//@ func (*compoundState).txClose
+//@   props C19
+//@   ensures a-successful-close-advances-the-state-id: r1 != nil ==> r1.stateID.seqID == nextSeq(old(r1.stateID.seqID)) && r1.stateID.other == old(r1.stateID.other)
 // NFSv4.0 CLOSE is done in two phases. The first gives up the lock states and
 // every access mode of the open but keeps the open state registered, so that a
 // retransmitted CLOSE still resolves its state ID (C19); the second, run by the
@@ -410,7 +437,8 @@ package nfsv4
 //@   ensures no-transaction-on-error: r2 != nfsv4.NFS4_OK ==> r0 == nil
 
 //@ func (*openOwnerTransaction).complete
-//@   props C19
+//@   props C19 C18
+//@   ensures the-hold-on-the-client-is-given-back-whatever-the-reply: holds(old(oot.state.confirmedClient.confirmation)) == -1
 //@   requires oot.state != nil && lastResponse != nil
 //@   ensures transaction-closed: old(oot.state).currentTransactionWait == nil
 //@   ensures every-request-waiting-for-this-transaction-is-woken: closed(old(oot.wait))
@@ -470,7 +498,8 @@ package nfsv4
 //@             len(cachedResults) <= len(argArray) && (slot.lastResult.status == nfsv4.NFS4_OK ==> len(cachedResults) == len(argArray))
 
 //@ func (*lockOwnerTransaction).complete
-//@   props C19
+//@   props C19 C18 C20
+//@   ensures the-hold-on-the-client-is-given-back-whatever-the-reply: holds(old(lot.state.confirmedClient.confirmation)) == -1
 //@   requires lot.state != nil && lastResponse != nil
 //@   ensures reply-recorded: shouldComplete(uf("status", lastResponse)) ==>
 //@             old(lot.state).lastSeqID == old(lot.seqID) && old(lot.state).lastResponse == lastResponse
